@@ -362,7 +362,11 @@ where
             block_header[2],
             block_header[3],
         ];
-        let id_str = from_utf8(id_bytes).unwrap().to_uppercase();
+        let id_str = match from_utf8(id_bytes) {
+            Ok(id) => id.to_uppercase(),
+            // Can't be any of the known blocks, will be skipped
+            Err(_) => alloc::string::String::new(),
+        };
         cursor_pos += ZXST_BLOCK_HEADER_SIZE;
 
         // ZXST Block Data
